@@ -264,7 +264,7 @@ def run(ctx):
         ctx.broken.append({"kind": "factories", "available": facts})
         return
     cap = 20000 if ctx.tier == "quick" else 60000
-    n = 150 if ctx.tier == "quick" else 3000
+    n = 150 if ctx.tier == "quick" else 1500
     if ctx.broken:
         n *= 4
     if ctx.replay:
